@@ -349,6 +349,71 @@ impl<T: SparseIndex> PartialEq for BitSet<T> {
 
 impl<T: SparseIndex> Eq for BitSet<T> {}
 
+/// Verification hook: runs a script of set operations on two `BitSet<usize>` registers (`A`, `B`) and returns one output
+/// line per operation, so that the bit-block arithmetic can be compared with an external model. Not part of the API.
+#[cfg(feature = "verif-hooks")]
+pub(crate) fn verif_script(script: &str) -> alloc::string::String {
+    use alloc::string::String;
+    use core::fmt::Write;
+
+    let mut a = BitSet::<usize>::new();
+    let mut b = BitSet::<usize>::new();
+    let mut out = String::new();
+
+    for line in script.lines() {
+        let toks: alloc::vec::Vec<&str> = line.split(' ').collect();
+        let first_is_a = toks.get(1).map_or(true, |r| *r == "A");
+        let n = toks.get(2).and_then(|t| t.parse::<usize>().ok());
+        macro_rules! regs {
+            () => {
+                if first_is_a {
+                    (&mut a, &b)
+                } else {
+                    (&mut b, &a)
+                }
+            };
+        }
+        let (x, y) = regs!();
+        match (toks[0], n) {
+            ("ins", Some(n)) => writeln!(out, "{}", x.insert(n)).unwrap(),
+            ("rem", Some(n)) => writeln!(out, "{}", x.remove(n)).unwrap(),
+            ("has", Some(n)) => writeln!(out, "{}", x.contains(n)).unwrap(),
+            ("iter", _) => {
+                out.push('[');
+                for (i, v) in x.iter().enumerate() {
+                    write!(out, "{}{}", if i > 0 { "," } else { "" }, v).unwrap();
+                }
+                out.push_str("]\n");
+            }
+            ("len", _) => writeln!(out, "{}", x.len()).unwrap(),
+            ("empty", _) => writeln!(out, "{}", x.is_empty()).unwrap(),
+            ("nblocks", _) => writeln!(out, "{}", x.blocks.len()).unwrap(),
+            ("or", _) => {
+                *x |= y;
+                out.push_str("ok\n");
+            }
+            ("xor", _) => {
+                *x ^= y;
+                out.push_str("ok\n");
+            }
+            ("disj", _) => writeln!(out, "{}", x.is_disjoint(y)).unwrap(),
+            ("cmp", _) => writeln!(out, "{:?}", (*x).cmp(y)).unwrap(),
+            ("eq", _) => writeln!(out, "{}", *x == *y).unwrap(),
+            ("shrink", _) => {
+                x.shrink_to_fit();
+                out.push_str("ok\n");
+            }
+            ("clear", _) => {
+                x.clear();
+                out.push_str("ok\n");
+            }
+            _ => out.push_str("bad-op\n"),
+        }
+    }
+
+    out
+}
+
 #[cfg(test)]
 mod tests {
     use super::*;
